@@ -246,4 +246,143 @@ theorem threeUnsew3_topology (cfg : Cfg X) (n ld : Nat) (m m' : Map X) (u : Unit
   obtain ⟨lo, ro⟩ := x
   exact AttrOnly.bind (attrOnly_splitAttrs _ _ _ _ _) fun _ => attrOnly_threeUnsewLoop _ _ _
 
+
+/-! ## links never touch attribute values or the fault countdown -/
+
+/-- the program writes neither attribute values nor the fault countdown (whatever its outcome) -/
+def TopoOnly {α : Type} (p : P X α) : Prop := ∀ m : Map X, (run p m).2.a = m.a ∧ (run p m).2.fc = m.fc
+
+theorem TopoOnly.of_readOnly {α : Type} {p : P X α} (h : ReadOnly p) : TopoOnly p := by
+  intro m; rw [h m]; exact ⟨rfl, rfl⟩
+
+theorem TopoOnly.pure {α : Type} (a : α) : TopoOnly (pure a : P X α) := fun _ => ⟨rfl, rfl⟩
+theorem TopoOnly.abort {α : Type} (e : Err) : TopoOnly (abort e : P X α) := fun _ => ⟨rfl, rfl⟩
+theorem TopoOnly.panic {α : Type} : TopoOnly (Prog.panic : P X α) := fun _ => ⟨rfl, rfl⟩
+
+theorem TopoOnly.bind {α β : Type} {p : P X α} {f : α → P X β} (hp : TopoOnly p) (hf : ∀ a, TopoOnly (f a)) :
+    TopoOnly (p.bind f) := by
+  intro m
+  rw [run_bind_snd]
+  have := hp m
+  match h : run p m with
+  | (.ok a, m') =>
+      rw [h] at this
+      have h2 := hf a m'
+      exact ⟨h2.1.trans this.1, h2.2.trans this.2⟩
+  | (.err e, m') => rw [h] at this; exact this
+  | (.retry, m') => rw [h] at this; exact this
+  | (.panic, m') => rw [h] at this; exact this
+
+theorem TopoOnly.ite {α : Type} {c : Prop} [Decidable c] {p q : P X α} (hp : TopoOnly p) (hq : TopoOnly q) :
+    TopoOnly (if c then p else q) := by
+  split <;> assumption
+
+theorem TopoOnly.rB (i d : Nat) : TopoOnly (rB i d : P X Nat) := TopoOnly.of_readOnly (ReadOnly.rB i d)
+
+theorem TopoOnly.wB (i d v : Nat) : TopoOnly (wB i d v : P X Unit) := by
+  intro m; simp only [run_wB']; split <;> exact ⟨rfl, rfl⟩
+
+theorem TopoOnly.run_ok {α : Type} {p : P X α} (hp : TopoOnly p) {m m' : Map X} {a : α}
+    (h : run p m = (.ok a, m')) : m'.a = m.a ∧ m'.fc = m.fc := by
+  have := hp m; rw [h] at this; exact this
+
+theorem topoOnly_oneLinkCore (l r : Nat) : TopoOnly (oneLinkCore (X := X) l r) := by
+  unfold oneLinkCore
+  refine TopoOnly.bind (TopoOnly.rB _ _) fun _ => TopoOnly.ite (TopoOnly.abort _) ?_
+  refine TopoOnly.bind (TopoOnly.rB _ _) fun _ => TopoOnly.ite (TopoOnly.abort _) ?_
+  exact TopoOnly.bind (TopoOnly.wB _ _ _) fun _ => TopoOnly.wB _ _ _
+
+theorem topoOnly_iLinkCore (i l r : Nat) : TopoOnly (iLinkCore (X := X) i l r) := by
+  unfold iLinkCore
+  refine TopoOnly.bind (TopoOnly.rB _ _) fun _ => TopoOnly.ite (TopoOnly.abort _) ?_
+  refine TopoOnly.bind (TopoOnly.rB _ _) fun _ => TopoOnly.ite (TopoOnly.abort _) ?_
+  exact TopoOnly.bind (TopoOnly.wB _ _ _) fun _ => TopoOnly.wB _ _ _
+
+theorem topoOnly_oneUnlinkCore (l : Nat) : TopoOnly (oneUnlinkCore (X := X) l) := by
+  unfold oneUnlinkCore
+  refine TopoOnly.bind (TopoOnly.rB _ _) fun _ => TopoOnly.bind (TopoOnly.wB _ _ _) fun _ => ?_
+  exact TopoOnly.ite (TopoOnly.abort _) (TopoOnly.wB _ _ _)
+
+theorem topoOnly_iUnlinkCore (i l : Nat) : TopoOnly (iUnlinkCore (X := X) i l) := by
+  unfold iUnlinkCore
+  refine TopoOnly.bind (TopoOnly.rB _ _) fun _ => TopoOnly.bind (TopoOnly.wB _ _ _) fun _ => ?_
+  exact TopoOnly.ite (TopoOnly.abort _) (TopoOnly.wB _ _ _)
+
+theorem topoOnly_oneLink3 (l r : Nat) : TopoOnly (oneLink3 (X := X) l r) := by
+  unfold oneLink3
+  refine TopoOnly.bind (topoOnly_oneLinkCore _ _) fun _ => ?_
+  refine TopoOnly.bind (TopoOnly.rB _ _) fun _ => TopoOnly.bind (TopoOnly.rB _ _) fun _ => ?_
+  exact TopoOnly.ite (topoOnly_oneLinkCore _ _) (TopoOnly.pure _)
+
+theorem topoOnly_oneUnlink3 (l : Nat) : TopoOnly (oneUnlink3 (X := X) l) := by
+  unfold oneUnlink3
+  refine TopoOnly.bind (TopoOnly.rB _ _) fun _ => ?_
+  refine TopoOnly.bind (topoOnly_oneUnlinkCore _) fun _ => ?_
+  refine TopoOnly.bind (TopoOnly.rB _ _) fun _ => TopoOnly.bind (TopoOnly.rB _ _) fun _ => ?_
+  refine TopoOnly.ite ?_ (TopoOnly.pure _)
+  refine TopoOnly.bind (TopoOnly.rB _ _) fun _ => ?_
+  exact TopoOnly.ite (TopoOnly.abort _) (topoOnly_oneUnlinkCore _)
+
+theorem topoOnly_threeLinkWalk (ld rd stop i j : Nat) :
+    ∀ f ls rs, TopoOnly (threeLinkWalk (X := X) ld rd stop i j f ls rs) := by
+  intro f
+  induction f with
+  | zero => intro ls rs; unfold threeLinkWalk; exact TopoOnly.panic
+  | succ f ih =>
+      intro ls rs
+      unfold threeLinkWalk
+      refine TopoOnly.ite ?_ (TopoOnly.pure _)
+      refine TopoOnly.ite (TopoOnly.abort _) ?_
+      refine TopoOnly.bind (topoOnly_iLinkCore _ _ _) fun _ => ?_
+      exact TopoOnly.bind (TopoOnly.rB _ _) fun _ => TopoOnly.bind (TopoOnly.rB _ _) fun _ => ih _ _
+
+theorem topoOnly_threeLink3 (n ld rd : Nat) : TopoOnly (threeLink3 (X := X) n ld rd) := by
+  unfold threeLink3
+  refine TopoOnly.bind (topoOnly_iLinkCore _ _ _) fun _ => ?_
+  refine TopoOnly.bind (TopoOnly.rB _ _) fun _ => TopoOnly.bind (TopoOnly.rB _ _) fun _ => ?_
+  refine TopoOnly.bind (topoOnly_threeLinkWalk _ _ _ _ _ _ _ _) fun x => ?_
+  obtain ⟨ls, rs⟩ := x
+  refine TopoOnly.ite ?_ (TopoOnly.ite (TopoOnly.abort _) (TopoOnly.pure _))
+  refine TopoOnly.ite (TopoOnly.abort _) ?_
+  refine TopoOnly.bind (TopoOnly.rB _ _) fun _ => TopoOnly.bind (TopoOnly.rB _ _) fun _ => ?_
+  refine TopoOnly.bind (topoOnly_threeLinkWalk _ _ _ _ _ _ _ _) fun y => ?_
+  obtain ⟨_, rs2⟩ := y
+  exact TopoOnly.ite (TopoOnly.abort _) (TopoOnly.pure _)
+
+theorem topoOnly_threeUnlinkWalk (ld rd stop i j : Nat) (again : Bool) :
+    ∀ f ls rs, TopoOnly (threeUnlinkWalk (X := X) ld rd stop i j again f ls rs) := by
+  intro f
+  induction f with
+  | zero => intro ls rs; unfold threeUnlinkWalk; exact TopoOnly.panic
+  | succ f ih =>
+      intro ls rs
+      unfold threeUnlinkWalk
+      refine TopoOnly.ite ?_ (TopoOnly.pure _)
+      refine TopoOnly.bind (TopoOnly.rB _ _) fun _ => ?_
+      refine TopoOnly.ite (TopoOnly.abort _) ?_
+      have tail : ∀ y, TopoOnly (if ls ≠ y then (Prog.panic : P X (Nat × Nat)) else do
+          iUnlinkCore 3 ls
+          let ls' ← rB i ls
+          let rs' ← rB j rs
+          threeUnlinkWalk ld rd stop i j again f ls' rs') := by
+        intro y
+        refine TopoOnly.ite TopoOnly.panic ?_
+        refine TopoOnly.bind (topoOnly_iUnlinkCore _ _) fun _ => ?_
+        exact TopoOnly.bind (TopoOnly.rB _ _) fun _ => TopoOnly.bind (TopoOnly.rB _ _) fun _ => ih _ _
+      cases again with
+      | false => exact TopoOnly.bind (TopoOnly.pure _) tail
+      | true => exact TopoOnly.bind (TopoOnly.rB _ _) tail
+
+theorem topoOnly_threeUnlink3 (n ld : Nat) : TopoOnly (threeUnlink3 (X := X) n ld) := by
+  unfold threeUnlink3
+  refine TopoOnly.bind (TopoOnly.rB _ _) fun _ => ?_
+  refine TopoOnly.bind (topoOnly_iUnlinkCore _ _) fun _ => ?_
+  refine TopoOnly.bind (TopoOnly.rB _ _) fun _ => TopoOnly.bind (TopoOnly.rB _ _) fun _ => ?_
+  refine TopoOnly.bind (topoOnly_threeUnlinkWalk _ _ _ _ _ _ _ _ _) fun x => ?_
+  obtain ⟨ls, rs⟩ := x
+  refine TopoOnly.ite ?_ (TopoOnly.pure _)
+  refine TopoOnly.ite (TopoOnly.abort _) ?_
+  refine TopoOnly.bind (TopoOnly.rB _ _) fun _ => TopoOnly.bind (TopoOnly.rB _ _) fun _ => ?_
+  exact TopoOnly.bind (topoOnly_threeUnlinkWalk _ _ _ _ _ _ _ _ _) fun _ => TopoOnly.pure _
+
 end HC
